@@ -7,8 +7,10 @@ V = os.path.dirname(os.path.dirname(os.path.abspath(__file__)))
 RACE = {"C04", "C05", "C35", "C40", "C41"}
 # id: (category, level text, level note, technique, design_ref)
 T = {}
-def add(i, cat, text, note, tech): T[i] = (cat, text, note, tech)
-exec(open(os.path.join(V, "tools", "manifest_table.py")).read())
+for f in os.listdir(os.path.join(V, "tools", "manifest")):
+    if f.endswith(".json"):
+        d = json.load(open(os.path.join(V, "tools", "manifest", f)))
+        T[f[:-5]] = (d["category"], d["text"], d["note"], d["technique"])
 props = [json.loads(l) for l in open(os.path.join(V, "properties.jsonl"))]
 have = {d.upper() for d in os.listdir(os.path.join(V, "harness", "props"))}
 na_reasons = {}
